@@ -582,5 +582,82 @@ func recordConc(rec *recorder, rng *rand.Rand, trials int, repo string) int {
 			wg.Wait()
 		}
 	}
+	// random DAG programs over the operator catalogue (the same generator as the node-level trace recorder): every operator
+	// family is run from 8 goroutines at once, each Run with its own tensors, against the sequential result of the same input
+	nProg := 3
+	if concMode == "hot" {
+		nProg = 2 + trials/2
+	}
+	for pi := 0; pi < nProg; pi++ {
+		m, inShapes, _, ok := randomProgram(rng)
+		if !ok {
+			continue
+		}
+		b, err := buildModel(m)
+		if err != nil {
+			fmt.Fprintln(os.Stderr, "record conc: random program:", err)
+			return 2
+		}
+		model, err := gonnx.NewModelFromBytes(b)
+		if err != nil {
+			fmt.Fprintln(os.Stderr, "record conc: random program:", err)
+			return 2
+		}
+		name := fmt.Sprintf("program%d", pi+1)
+		const nKeys = 4
+		var pool [nKeys]map[string]AbsTensor
+		mkFeed := func(k int) gonnx.Tensors {
+			f := gonnx.Tensors{}
+			for n, at := range pool[k] {
+				t, _ := MkTensor(at)
+				f[n] = t
+			}
+			return f
+		}
+		usable := true
+		for k := range pool {
+			pool[k] = map[string]AbsTensor{"a": rtensor(rng, "f32", inShapes["a"], -3, 3), "b": rtensor(rng, "f32", inShapes["b"], -3, 3)}
+			out, err := model.Run(mkFeed(k))
+			if err != nil {
+				usable = false
+				break
+			}
+			emit(map[string]interface{}{"ev": "Baseline", "model": name, "g": 0, "seq": 0, "key": k + 1, "digest": digestOf(out, m.Outputs)})
+		}
+		if !usable {
+			continue
+		}
+		runs := 1 + trials/2
+		if concMode == "hot" {
+			runs = 6 * trials
+		}
+		var rw sync.WaitGroup
+		for gi := 1; gi <= 8; gi++ {
+			seed := rng.Int63()
+			rw.Add(1)
+			go func(gi int, seed int64) {
+				defer rw.Done()
+				lr := rand.New(rand.NewSource(seed))
+				for seq := 1; seq <= runs; seq++ {
+					k := lr.Intn(nKeys)
+					var out gonnx.Tensors
+					o := guard(func() Observation {
+						var err error
+						out, err = model.Run(mkFeed(k))
+						if err != nil {
+							return observeErr(err)
+						}
+						return Observation{Kind: "value"}
+					})
+					if o.Kind != "value" {
+						emit(map[string]interface{}{"ev": "Failed", "model": name, "why": o.Short(), "g": gi + 800, "seq": seq, "key": k + 1, "digest": ""})
+						continue
+					}
+					emit(map[string]interface{}{"ev": "RunEnd", "model": name, "g": gi + 800, "seq": seq, "key": k + 1, "digest": digestOf(out, m.Outputs)})
+				}
+			}(gi, seed)
+		}
+		rw.Wait()
+	}
 	return 0
 }
